@@ -831,6 +831,9 @@ def boundary_cases():
         "enum Ee:\n  [is_signed: 1 == 1]\n  CC = 3\n", "enum Ee:\n  AA = 1\nstruct Foo:\n  0 [+y] UInt x\n  let y = -Ee.AA\n",
         head + "struct Foo(q: UInt:64):\n  q [+2] UInt f\n", 'import "nope.emb" as n\n',
         "enum Foo:\n  AA = $upper_bound(2)\n",
+        "struct Foo:\n  0 [+1] UInt x\n  1 [+1] UInt y\n    [requires: $next == 1]\n",
+        "struct Foo(p: UInt:8):\n  0 [+1] UInt x\nstruct Bar:\n  0 [+1] UInt a\n  1 [+1] Foo($next) y\n",
+        "struct Foo:\n  0 [+1]  UInt  x\n" + "".join("  let f%d = f%d + 1\n" % (i, i + 1) for i in range(296)) + "  let f296 = x\n",
         head + "struct Foo:\n  0 [+1] UInt n\n  1 [+n] UInt x\n  let y = $upper_bound(x) + 2\n",
         head + "struct Foo:\n  0 [+1] UInt n\n  1 [+n] UInt x\n  let y = $max(x, 1)\n",
         head + "struct Foo:\n  0 [+1] UInt n\n  1 [+n] UInt x\n  let y = x == 1\n",
@@ -959,7 +962,29 @@ def boundary_cases():
     return [_case("boundary", {"m.emb": t}) for t in texts]
 
 
-GENERATORS = [("bytes", gen_bytes, 6), ("soup", gen_soup, 8), ("grammar", gen_grammar, 22),
+def gen_chain(r):
+    """Long reference chains (not expression nesting): `let f0 = f1 + 1 ... let fN = x`,
+    forward or backward, through virtual fields, conditions or locations; <= 300 lines."""
+    n = r.choice([20, 100, 200, 250, 280, 296])
+    mode = r.choice(["let_fwd", "let_back", "loc", "cond"])
+    L = ["struct Foo:", "  0 [+1]  UInt  x"]
+    if mode == "let_fwd":
+        L += ["  let f%d = f%d + 1" % (i, i + 1) for i in range(n)] + ["  let f%d = x" % n]
+    elif mode == "let_back":
+        L += ["  let f0 = x"] + ["  let f%d = f%d + 1" % (i + 1, i) for i in range(n)]
+    elif mode == "loc":
+        n = min(n, 290)
+        L += ["  let f0 = x"] + ["  let f%d = f%d" % (i + 1, i) for i in range(n)] + ["  f%d [+1]  UInt  y" % n]
+    else:
+        n = min(n, 145)
+        L += ["  let f0 = x == 1"]
+        for i in range(n):
+            L += ["  let f%d = f%d && true" % (i + 1, i)]
+        L += ["  if f%d:" % n, "    1 [+1]  UInt  y"]
+    return _case("chain/" + mode, {"m.emb": "\n".join(L) + "\n"})
+
+
+GENERATORS = [("chain", gen_chain, 1), ("bytes", gen_bytes, 6), ("soup", gen_soup, 8), ("grammar", gen_grammar, 22),
               ("sem", gen_sem, 36), ("nest", gen_nest, 3), ("mutate", gen_mutate, 18), ("imports", gen_imports, 7)]
 
 
